@@ -47,7 +47,7 @@ INFO = {
  "C16-b-indefinite-renewal-keeps-old-timer": ("renew_subscription no longer suspends the expiry task before re-arming", "finite subscription renewed as indefinite, clock passes the original expiry", "caught as built"),
  "C06-a-stale-snet-after-renumber": ("outgoing adapter chosen through RouterInfo.snet, which update_source_network never re-keys", "station bound without a network number learns a route, then receives Network-Number-Is, then sends to that network", "missed by C06 at first (its stations never learned their number after a route; C19's wire part caught it as `probe:raises-KeyError`); caught by C06 itself after the 'nwarm' table mode was added (routers announce Network-Number-Is after the stations learned their routes)"),
  "C06-b-iam-router-relay-only-new": ("a router relays only I-Am-Router-To-Network entries new to its cache", "two routers on the path and a routed frame from the destination network crossing the first router while discovery is under way", "caught as built (delivery-order deviations)"),
- "C15-a-falsy-command-stored-as-null": ("_Commando.WriteProperty tests `not value`: a commanded 0 / empty value is stored as Null", "commandable object, falsy value, another slot active or priorityArray read back", "not caught by C15 (commandable objects are left to C17 there); caught by C17 (`slots:command-without-priority-not-at-16`, value 0.0 is in its alphabet)"),
+ "C15-a-falsy-command-stored-as-null": ("_Commando.WriteProperty tests `not value`: a commanded 0 / empty value is stored as Null", "commandable object, falsy value, another slot active or priorityArray read back", "missed by C15 at first (commandable objects were left to C17, which caught it as `slots:command-without-priority-not-at-16`); caught by C15 itself after the commandable part was added (two objects of a class, present value and array element read back over the wire after every acknowledged write)"),
  "C15-b-rpm-selectors-skip-computed": ("RPM selector expansion skips properties whose stored value is None (computed properties)", "selector RPM to an object with a computed property (device object)", "caught as built"),
  "C20-a-last-day-wrong-century-february": ("last-day-of-month helper called with a doubly offset year in match_date", "the 'last day' pattern in February 2000 / 2100", "caught as built (2000 and 2100 are among the quick tier's seven years)"),
  "C20-b-exception-only-sleeps": ("eval() returns 24:00 as next transition for schedules without weekly schedule", "exception-only schedule with an exception entry still to come that day", "caught as built (next-transition soundness)"),
@@ -79,7 +79,7 @@ INFO = {
  "C13-d-renewal-without-grace": ("renewal of an existing FDT entry sets remaining = TTL without grace", "registration instant off the whole second", "caught as built (start phases .25/.75)"),
  "C14-c-scheduled-flag-cleared-after-handler": ("isScheduled cleared after the handler returns", "a task that re-arms itself from inside its own handler", "missed at first (callbacks only re-installed other tasks); caught after self-re-arming variants were added"),
  "C14-d-deferred-remainder-requeued-behind": ("after a raising deferred function the remainder is re-queued behind functions deferred meanwhile", "raising member + nested deferral + later member in one batch", "caught as built"),
- "C15-c-shared-priority-array-default": ("priority array as shared property default (same idea as C17-b, other site)", "two objects of one commandable class", "not caught by C15 (commandable objects are left to C17); caught by C17 (`init:fresh-object-not-in-initial-state`)"),
+ "C15-c-shared-priority-array-default": ("priority array as shared property default (same idea as C17-b, other site)", "two objects of one commandable class", "missed by C15 at first (C17 caught it as `init:fresh-object-not-in-initial-state`); caught by C15 itself after the commandable part was added: a write to one object changes the array element of the other"),
  "C15-d-rpm-wraps-list-valued-elements": ("RPM helper loses the 'no array index' term (partial revert of fix 2f3199c)", "RPM with an array index on an array of bit strings", "caught as built"),
  "C16-c-baseline-ignores-targeted-notification": ("increment baseline only follows broadcast notifications", "sub-increment drift, then a renewal / second subscriber, then a write between the two baselines", "caught as built"),
  "C16-d-unmatched-cancel-tears-down-detection": ("a cancel that matches nothing deletes the object's shared detection", "repeated or late cancel while another subscriber is live", "caught as built"),
@@ -94,7 +94,7 @@ INFO = {
 }
 
 # seeded changes whose own property's check is silent but a sibling property's check decides them
-DETECTED_BY = {"C15-a-falsy-command-stored-as-null": "C17", "C15-c-shared-priority-array-default": "C17"}
+DETECTED_BY = {}
 
 
 def main():
